@@ -111,10 +111,10 @@ theorem redb_run_sim (v : Hdr → Hdr → Bool) (ops : List Op) (hw : AllWf ops)
     exact ⟨by simp only [e, e2], r2⟩
 
 /-- all headers handed to `insert` are validated -/
-def AllValidated (ops : List Op) : Prop := ∀ op ∈ ops, ∀ batch, op = .insert batch → ∀ x ∈ batch, x.valid = true
+def AllValidated (ops : List Op) : Prop := ∀ op ∈ ops, op.validated = true
 
 theorem abs_step_storedValid (v : Hdr → Hdr → Bool) (a : AbsStore) (op : Op) (hs : StoredValid a)
-    (hb : ∀ batch, op = .insert batch → ∀ x ∈ batch, x.valid = true) :
+    (hb : op.validated = true) :
     StoredValid (AbsStore.step v a op).1 := by
   cases op with
   | insert batch =>
@@ -130,7 +130,7 @@ theorem abs_step_storedValid (v : Hdr → Hdr → Bool) (a : AbsStore) (op : Op)
         simp only [List.mem_append] at hx
         rcases hx with hx | hx
         · exact hs x hx
-        · exact hb batch rfl x hx
+        · simp only [Op.validated, List.all_eq_true] at hb; exact hb x hx
   | remove h =>
     simp only [AbsStore.step, AbsStore.remove]
     split
@@ -161,5 +161,170 @@ theorem invOK_of_absInv (a : AbsStore) (hi : AbsInv a) : invOK a = true := by
   simp only [Bool.and_eq_true, List.all_eq_true, decide_eq_true_eq, Bool.not_eq_true']
   refine ⟨⟨⟨⟨⟨nodupB_of_nodup _ hi.nodupH, nodupB_of_nodup _ hi.nodupQ⟩, fun x hx => (hi.bounds x hx).1⟩,
     hi.sampled⟩, hi.pruned⟩, hi.metas⟩
+
+theorem placement_not_panic (a : AbsStore) (lo hi : Nat) (e : Err)
+    (h : AbsStore.placement a lo hi = .error e) : e ≠ .panic := by
+  unfold AbsStore.placement at h
+  by_cases h2 : (lo == 0 || decide (lo > hi)) = true
+  · rw [if_pos h2] at h; injection h with h; subst h; simp
+  rw [if_neg h2] at h
+  dsimp only at h
+  by_cases h3 : (!(a.hdrs.all fun x => decide (x.height < lo)) && a.hdrs.any fun x => between lo hi x.height) = true
+  · rw [if_pos h3] at h; injection h with h; subst h; simp
+  rw [if_neg h3] at h
+  by_cases h4 : (!(a.hdrs.all fun x => decide (x.height < lo)) && !a.stored (lo - 1) && !a.stored (hi + 1)) = true
+  · rw [if_pos h4] at h; injection h with h; subst h; simp
+  rw [if_neg h4] at h; cases h
+
+theorem insertCheck_not_panic (v : Hdr → Hdr → Bool) (a : AbsStore) (batch : List Hdr) (e : Err)
+    (h : AbsStore.insertCheck v a batch = .error e) : e ≠ .panic := by
+  unfold AbsStore.insertCheck at h
+  split at h
+  next first last hf hl =>
+    by_cases h1 : (!chainOK v batch) = true
+    · rw [if_pos h1] at h; injection h with h; subst h; simp
+    rw [if_neg h1] at h
+    cases hp : AbsStore.placement a first.height last.height with
+    | error e' =>
+      rw [hp] at h; simp only at h
+      injection h with h; subst h
+      exact placement_not_panic a _ _ _ hp
+    | ok u =>
+      rw [hp] at h
+      simp only at h
+      by_cases h5 : (!AbsStore.prevOK v a first || !AbsStore.nextOK v a last) = true
+      · rw [if_pos h5] at h; injection h with h; subst h; simp
+      rw [if_neg h5] at h
+      cases h6 : firstDupHash (a.hdrs.map (·.hash)) batch with
+      | some q => rw [h6] at h; simp only at h; injection h with h; subst h; simp
+      | none => rw [h6] at h; simp at h
+  · simp at h
+
+/-- the abstract store never answers `panic` -/
+theorem abs_never_panics (v : Hdr → Hdr → Bool) (a : AbsStore) (op : Op) :
+    (AbsStore.step v a op).2 ≠ .err .panic := by
+  cases op with
+  | insert batch =>
+    simp only [AbsStore.step, AbsStore.insert]
+    cases hc : AbsStore.insertCheck v a batch with
+    | ok o => cases o <;> simp
+    | error e =>
+      simp only
+      intro he
+      injection he with he
+      exact insertCheck_not_panic v a batch e hc he
+  | remove h => simp only [AbsStore.step, AbsStore.remove]; split <;> simp
+  | mark h => simp only [AbsStore.step, AbsStore.mark]; split <;> simp
+  | updMeta h c => simp only [AbsStore.step, AbsStore.updateMeta]; split <;> simp
+  | getByHeight h => simp only [AbsStore.step]; cases a.atHeight h <;> simp [AbsStore.optHdr]
+  | hasAt h => simp [AbsStore.step]
+  | getByHash q => simp only [AbsStore.step]; cases a.byHash q <;> simp [AbsStore.optHdr]
+  | has q => simp [AbsStore.step]
+  | getMeta h => simp only [AbsStore.step]; split <;> simp
+  | head =>
+    simp only [AbsStore.step]
+    cases a.headHeight with
+    | none => simp
+    | some h => simp only; cases a.atHeight h <;> simp [AbsStore.optHdr]
+  | headHeight => simp only [AbsStore.step]; cases a.headHeight <;> simp
+  | getRange lo hi =>
+    simp only [AbsStore.step, AbsStore.getRange]
+    repeat' split
+    all_goals simp
+  | storedRanges => simp [AbsStore.step]
+  | sampledRanges => simp [AbsStore.step]
+  | prunedRanges => simp [AbsStore.step]
+
+
+/-- what `get_by_height` of the redb store answering `Ok` means abstractly -/
+theorem redb_getByHeight_ok {t : Tables} {a : AbsStore} (r : Rr t a) (h : Nat) (x : Hdr)
+    (hx : RedbStore.getByHeight t h = .ok x) : a.atHeight h = some x ∧ x.valid = true := by
+  unfold RedbStore.getByHeight RedbStore.getHeader at hx
+  rw [r.hdrT h] at hx
+  cases ha : a.atHeight h with
+  | none => rw [ha] at hx; cases hx
+  | some x' =>
+    rw [ha] at hx
+    simp only [RedbStore.decodeHeader] at hx
+    split at hx
+    · rename_i hval; injection hx with hx; rw [← hx]; exact ⟨rfl, hval⟩
+    · cases hx
+
+/-- C21 on a pair (redb tables, abstract state) in the relation -/
+theorem redb_chain {t : Tables} {a : AbsStore} (r : Rr t a) (hi : AbsInv a) (v : Hdr → Hdr → Bool)
+    (hv : AbsVer v a) (h : Nat) (x y : Hdr)
+    (hx : RedbStore.getByHeight t h = .ok x) (hy : RedbStore.getByHeight t (h + 1) = .ok y) :
+    verifyAdjacent v x y = true := by
+  have mx := (atHeight_some hi h x).1 (redb_getByHeight_ok r h x hx).1
+  have my := (atHeight_some hi (h + 1) y).1 (redb_getByHeight_ok r (h + 1) y hy).1
+  have := hv _ mx.1 _ my.1 (by omega)
+  simp [verifyAdjacent, this, mx.2, my.2]
+
+theorem redb_hashIndex {t : Tables} {a : AbsStore} (r : Rr t a) (hi : AbsInv a) (h : Nat) (x : Hdr)
+    (hx : RedbStore.getByHeight t h = .ok x) :
+    x.height = h ∧ RedbStore.getByHash t x.hash = .ok x ∧ RedbStore.containsHash t x.hash = true := by
+  have hax := redb_getByHeight_ok r h x hx
+  have mx := (atHeight_some hi h x).1 hax.1
+  have hb := (byHash_some hi x.hash x).2 ⟨mx.1, rfl⟩
+  have hg : AMap.get t.heights x.hash = some h := by rw [r.hgt, hb]; simp [mx.2]
+  have hh : AMap.get t.headers h = some x := by rw [r.hdrT, hax.1]
+  refine ⟨mx.2, ?_, ?_⟩
+  · simp [RedbStore.getByHash, RedbStore.getHeight, hg, Bind.bind, Except.bind, RedbStore.getHeader, hh,
+      RedbStore.decodeHeader, hax.2]
+  · simp [RedbStore.containsHash, RedbStore.getHeight, hg, contains_eq, hh]
+
+/-- C21 on a pair (in-memory state, abstract state) in the relation -/
+theorem mem_chain {m : MemStore} {a : AbsStore} (r : Rm m a) (hi : AbsInv a) (v : Hdr → Hdr → Bool)
+    (hv : AbsVer v a) (h : Nat) (x y : Hdr)
+    (hx : m.getByHeight h = .ok x) (hy : m.getByHeight (h + 1) = .ok y) :
+    verifyAdjacent v x y = true := by
+  rw [mem_getByHeight r hi] at hx hy
+  cases hax : a.atHeight h with
+  | none => rw [hax] at hx; cases hx
+  | some x' =>
+    cases hay : a.atHeight (h + 1) with
+    | none => rw [hay] at hy; cases hy
+    | some y' =>
+      rw [hax] at hx; rw [hay] at hy
+      injection hx with hx; injection hy with hy
+      subst hx hy
+      have mx := (atHeight_some hi h _).1 hax
+      have my := (atHeight_some hi (h + 1) _).1 hay
+      have := hv _ mx.1 _ my.1 (by omega)
+      simp [verifyAdjacent, this, mx.2, my.2]
+
+theorem mem_hashIndex {m : MemStore} {a : AbsStore} (r : Rm m a) (hi : AbsInv a) (h : Nat) (x : Hdr)
+    (hx : m.getByHeight h = .ok x) :
+    x.height = h ∧ m.getByHash x.hash = .ok x ∧ m.containsHash x.hash = true := by
+  rw [mem_getByHeight r hi] at hx
+  cases hax : a.atHeight h with
+  | none => rw [hax] at hx; cases hx
+  | some x' =>
+    rw [hax] at hx; injection hx with hx; subst hx
+    have mx := (atHeight_some hi h _).1 hax
+    have hb := (byHash_some hi x'.hash x').2 ⟨mx.1, rfl⟩
+    refine ⟨mx.2, ?_, ?_⟩
+    · simp only [MemStore.getByHash]; rw [r.hdr, hb]
+    · simp only [MemStore.containsHash, contains_eq]; rw [r.hdr, hb]; rfl
+
+theorem mem_appendDedup (acc l : List Cid) (c : Cid) : c ∈ appendDedup acc l ↔ c ∈ acc ∨ c ∈ l := by
+  induction l generalizing acc with
+  | nil => simp [appendDedup]
+  | cons a rest ih =>
+    simp only [appendDedup]
+    split
+    · rename_i h
+      rw [ih]
+      simp only [List.contains_eq_mem, decide_eq_true_eq] at h
+      constructor
+      · rintro (h1 | h1); exact Or.inl h1; exact Or.inr (List.mem_cons_of_mem _ h1)
+      · rintro (h1 | h1)
+        · exact Or.inl h1
+        · rcases List.mem_cons.1 h1 with e | e
+          · subst e; exact Or.inl h
+          · exact Or.inr e
+    · rw [ih]
+      simp only [List.mem_append, List.mem_cons, List.not_mem_nil, or_false]
+      exact or_assoc
 
 end Lumina.Proofs.Store
